@@ -397,7 +397,7 @@ Complete(r, v, f) ==
   /\ task[r].ndisc = Len(DiscOf(r))
   /\ v = ComputeVal(r, task[r].reqs, task[r].got)
   /\ f = ForceOf(r)
-  /\ mem' = [mem EXCEPT ![r] = IF ~f /\ v = mem[r].value
+  /\ mem' = [mem EXCEPT ![r] = IF ~f /\ mem[r].built # 0 /\ v = mem[r].value   \* a first value always counts as changed
                                THEN [@ EXCEPT !.sig = SigOf(r)]
                                ELSE [@ EXCEPT !.sig = SigOf(r), !.value = v, !.computed = epoch]]
   /\ st' = [st EXCEPT ![r] = "reported"]
